@@ -1039,8 +1039,13 @@ lua_statements = [
         ],
     ),
     dict(
+        # Pass a std::string, not the const char *: with overloads
+        # f(const std::string &) and f(bool), C++ prefers the
+        # pointer to bool conversion and calls f(bool).
         name="lua_string_&_in",
-        base="lua_string_*_in",
+        pre_call=[
+            "const std::string {cxx_var}(\t{pop_expr});",
+        ],
     ),
     dict(
         name="lua_string_scalar_result",
